@@ -476,6 +476,10 @@ def patch_rank(ctx, lib, gl, names=None, kinds=("mass", "thermal-K", "elastic-K"
 
 
 def run(ctx):
+    from ..shared import copy_out_rule as _cor
+
+    # the K, C, M handed out stay symmetric / definite whatever the caller does with an earlier copy: whole copies, no shared index arrays
+    ctx.attempt(_cor, ctx, 'R2.15', ['Get_K_C_M_F'], 'EasyFEA.Simulations._simu._Simu')
     from . import c11 as _c11s
 
     # 'M carries the mass rho * measure' after ANY change of a parameter: the parameter descriptors raise Need_Update on every assignment
